@@ -43,6 +43,10 @@ def _canon(obj, out, seen, depth=0):
         out.append('<ref %d>' % seen[oid])
         return
     seen[oid] = len(seen)
+    # keep every visited object alive for the whole walk: temporaries (lists
+    # made by DataFrame.values.tolist(), property results) would otherwise be
+    # freed and their ids reused, producing spurious back references
+    seen.setdefault('keepalive', []).append(obj)
     tname = type(obj).__name__
     if isinstance(obj, dict):
         items = []
